@@ -363,13 +363,17 @@ Proof.
       destruct R as [Rs Rm Rr Rp Rps Rn Rpl Rt Rw Rwp]. constructor; cbn; try assumption; reflexivity.
 Qed.
 
-Theorem run_refines ops : forall c sc, Rcl c sc ->
-  Forall2 agrees (m_run c ops)
-    ((fix srun (sc : sclient) (ops : list op) : list (option obs) :=
-        match ops with [] => [] | o :: t => let '(w, sc') := s_step sc o in w :: srun sc' t end) sc ops).
+Theorem run_refines ops : forall c sc, Rcl c sc -> Forall2 agrees (m_run c ops) (s_run sc ops).
 Proof.
-  induction ops as [|o ops IH]; intros c sc R; cbn [m_run]; [constructor|].
+  induction ops as [|o ops IH]; intros c sc R; cbn [m_run s_run]; [constructor|].
   destruct (step_refines c sc o R) as [Ha R'].
   destruct (m_step c o) as [b c']. destruct (s_step sc o) as [w sc']. cbn [fst snd] in *.
   constructor; [exact Ha|apply IH; exact R'].
 Qed.
+
+(* the headline: on every stream, under every read schedule and error convention, whatever the operations,
+   the client behaves as the abstract client over the reference segmentation wherever the latter is defined *)
+Theorem client_refines_spec stream sch fin ewd wplan ops :
+  sched_ok sch -> (ewd = false \/ snd (segT stream) = SEnd) ->
+  Forall2 agrees (m_run (new_client (mk stream sch fin ewd) wplan) ops) (s_run (snew stream fin wplan) ops).
+Proof. intros Hok Hc. apply run_refines. apply Rcl_init; assumption. Qed.
